@@ -29,7 +29,7 @@ RULE = ('each run = 20-40 validations of time locks on 1-3 simulated validators 
         'class, observed verdict)')
 REQUIRED_PROBES = ['t==c', 't==c-1', 't-now==thr', 't-now==thr-1', 'thr<=0',
                    'constraint_top_bit', 'encoding_len_9', 'step_between_reads',
-                   'mixed_slack_reads', 'fractional_now', 'empty_window', 'default_timestamp', 'session_cache_reused', 'non_int_timestamp'] + \
+                   'mixed_slack_reads', 'fractional_now', 'empty_window', 'default_timestamp', 'session_cache_reused', 'non_int_timestamp', 'clock_read_failed'] + \
     ['nested_' + n for n in ('if', 'else', 'call', 'eval', 'try', 'except', 'loop', 'scripthash')]
 
 KINDS = ['cts', 'ctsv', 'ce', 'cev', 'after', 'afterv', 'before', 'beforev',
@@ -158,6 +158,9 @@ def gen_step(rng: Rng, cell, vname, now_s, at_us, big):
         step['faults'].append({'at_read': rng.below(2), 'kind': 'freeze'})
         if rng.chance(1, 2):
             step['faults'].append({'at_read': 2, 'kind': 'unfreeze'})
+    if fc != 'none' and 'weird_t' not in step and rng.chance(1, 12):
+        # the clock system call itself fails, once, at one of the reads of this call
+        step['faults'].append({'at_read': rng.below(3), 'kind': 'fail'})
     return step
 
 
@@ -471,6 +474,28 @@ def execute(plan, run):
             obs = observe(step, lock, run)
         finally:
             reads = CLOCK.end_call()
+        would = CLOCK.last_call.get('would')
+        if would:
+            # a clock read failed inside this validation: it may fail as a whole, but it
+            # must not accept what the window -- evaluated with the value the failed
+            # read would have returned -- excludes
+            run.probe('clock_read_failed')
+            if obs.startswith('BAD:raised_'):
+                obs = REJECT
+            st2 = dict(step, t=int(CLOCK.last_call['all'][0])) if step['t'] is None else step
+            mdl = model(st2, CLOCK.last_call['all'])
+            if mdl == ACCEPT:
+                mdl = EITHER
+            run.sched.append([step['kind'], step.get('nest', 'top'), step['validator'],
+                              len(reads), 'clock_read_failed'])
+            run.ev('val', i, step['kind'], step['t'], 'clock_read_failed', reads, obs, mdl)
+            run.judge('window', obs, mdl,
+                      lambda o, m, s=step: 'C16/%s/%s_after_a_failed_clock_read' % (
+                          BASE[s['kind']], 'accepted' if o == ACCEPT else o[:40]),
+                      step=i, detail={'reads': reads, 'would_have_read': would, 't': step['t'],
+                                      'kind': step['kind'], 'c': step.get('c'),
+                                      'c2': step.get('c2'), 'thr': step['thr']})
+            continue
         if step.get('weird_t'):
             run.probe('non_int_timestamp')
             if obs.startswith('BAD:raised_'):
